@@ -34,3 +34,11 @@ contract("C16.get_sidecar_for_obj",
              "C16.dir.first_applicable": "implies(result is not None, any(L[k] is result and all(not app(L[j]) for j in range(k)) for k in range(len(L))))",
          },
          loops={0: {"invariant": ["all(not " + APPLIES + "(_iter0[k]) for k in range(_n))"]}})
+
+# C16 "each dataset file is validated with its inherited, merged sidecar" - every time, not only the first: releasing the loaded table after a
+# validation drops the table and nothing else (the merged sidecar attached when the dataset was read, and the HED flag, stay)
+class_model("BidsFileClear", {"_contents": "Opaque", "sidecar": "Opaque", "has_hed": "Bool", "file_path": "Str"})
+contract("C16.releasing_the_table_keeps_the_sidecar", file="hed/tools/bids/bids_file.py", func="BidsFile.clear_contents",
+         params={"self": "BidsFileClear"}, returns=None, enc="native", self_class="BidsFileClear", modifies=["self._contents"],
+         ghost={"not_at_call_sites": True},
+         ensures={"C16.clear.flag_kept": "self.has_hed == old(self.has_hed)"})
